@@ -1484,6 +1484,127 @@ impl<T: Kind, U: Kind> Store<T, U> {
 }
 
 // ---------------------------------------------------------------------------
+// C19, change sets: every destructor call of add / clear / consumption / drop panics once
+// ---------------------------------------------------------------------------
+
+/// Returns (executions, injected panics, first violation with its description).
+pub fn changeset_faults(max_len: usize) -> (u64, u64, Option<(String, String)>) {
+    use specs::ChangeSet;
+    let mut w = World::new();
+    let ents: Vec<Entity> = (0..3).map(|_| w.create_entity().build()).collect();
+    let entities = w.entities();
+    let mut execs = 0u64;
+    let mut injected = 0u64;
+    #[derive(Clone, Copy, Debug)]
+    enum Fin {
+        Clear,
+        Drop,
+        ConsumeAll,
+        ConsumeOne,
+    }
+    for len in 0..=max_len {
+        for code in 0..3usize.pow(len as u32) {
+            let seq: Vec<usize> = (0..len).map(|i| (code / 3usize.pow(i as u32)) % 3).collect();
+            for fin in [Fin::Clear, Fin::Drop, Fin::ConsumeAll, Fin::ConsumeOne] {
+                // one scenario; `arm` = destructor ordinal that panics (None: count only)
+                let scenario = |arm: Option<u64>| -> (u64, Option<String>) {
+                    ledger_reset(arm);
+                    let mut cs: ChangeSet<CDense> = ChangeSet::new();
+                    let mut panicked = false;
+                    for (i, e) in seq.iter().enumerate() {
+                        let ent = ents[*e];
+                        if catch(|| cs.add(ent, CDense::make(1 << i))).is_err() {
+                            panicked = true;
+                            break;
+                        }
+                    }
+                    let mut cs_opt = Some(cs);
+                    if !panicked {
+                        let r = match fin {
+                            Fin::Clear => {
+                                let cs = cs_opt.as_mut().unwrap();
+                                catch(|| cs.clear())
+                            }
+                            Fin::Drop => {
+                                let cs = cs_opt.take().unwrap();
+                                catch(move || drop(cs))
+                            }
+                            Fin::ConsumeAll => {
+                                let cs = cs_opt.take().unwrap();
+                                catch(|| {
+                                    for (_e, t) in (&entities, cs).join() {
+                                        t.returned();
+                                    }
+                                })
+                            }
+                            Fin::ConsumeOne => {
+                                let cs = cs_opt.take().unwrap();
+                                catch(|| {
+                                    let mut it = (&entities, cs).join();
+                                    if let Some((_e, t)) = it.next() {
+                                        t.returned();
+                                    }
+                                })
+                            }
+                        };
+                        panicked = r.is_err();
+                    }
+                    if let Some(e) = ledger_errors().into_iter().next() {
+                        return (ledger_drops(), Some(format!("ledger: {}", e)));
+                    }
+                    // after the caught panic the change set (if it still exists) must be usable
+                    if let Some(mut cs) = cs_opt.take() {
+                        let follow = catch(|| {
+                            for (_e, t) in (&entities, &cs).join() {
+                                t.observe();
+                            }
+                            for (_e, t) in (&entities, &mut cs).join() {
+                                t.observe();
+                            }
+                            for e in &ents {
+                                cs.add(*e, CDense::make(1000));
+                            }
+                            let n = (&entities, &cs).join().count();
+                            n
+                        });
+                        match follow {
+                            Err(m) => return (ledger_drops(), Some(format!("follow-up-panic: the change set is not usable after the caught panic: {}", m))),
+                            Ok(n) => {
+                                if n != 3 {
+                                    return (ledger_drops(), Some(format!("follow-up: after adding an amount for each of 3 entities the change set yields {} items", n)));
+                                }
+                            }
+                        }
+                        if catch(move || drop(cs)).is_err() && panicked {
+                            return (ledger_drops(), Some("teardown-panic: dropping the change set panicked again".into()));
+                        }
+                    }
+                    if let Some(e) = ledger_errors().into_iter().next() {
+                        return (ledger_drops(), Some(format!("ledger: {}", e)));
+                    }
+                    (ledger_drops(), None)
+                };
+                let (total, v) = scenario(None);
+                execs += 1;
+                if let Some(v) = v {
+                    return (execs, injected, Some((format!("adds {:?} then {:?}", seq, fin), v)));
+                }
+                for k in 1..=total {
+                    let (_, v) = scenario(Some(k));
+                    execs += 1;
+                    injected += 1;
+                    if let Some(v) = v {
+                        return (execs, injected, Some((format!("adds {:?} then {:?}, destructor call #{} panics", seq, fin, k), v)));
+                    }
+                }
+            }
+        }
+    }
+    ledger_reset(None);
+    (execs, injected, None)
+}
+
+// ---------------------------------------------------------------------------
 // driver
 // ---------------------------------------------------------------------------
 
@@ -1668,6 +1789,19 @@ pub fn main() {
             });
         }
     }
+    let mut cs_part = json!(null);
+    if prop == Prop::C19 {
+        let (e, inj, v) = match catch(|| changeset_faults(if cli.thorough() { 5 } else { 4 })) {
+            Ok(r) => r,
+            Err(m) => (0, 0, Some(("change set scenario".to_string(), format!("panic: second panic after the injected one: {}", m)))),
+        };
+        execs += e;
+        counters[2] += inj;
+        cs_part = json!({"executions": e, "injected_panics": inj});
+        if let Some((what, v)) = v {
+            findings.push(Finding { key: format!("changeset|{}", what), oracle: v, replay: json!({"engine": "mc-store", "kind": "changeset", "what": what}) });
+        }
+    }
     println!("# {}: configs={} states={} transitions={} executions={} ({:.1}s)", cli.property, plan.len(), states, transitions, execs + counters[2], t0.elapsed().as_secs_f64());
     let ev = Evidence {
         coverage: json!({
@@ -1680,6 +1814,7 @@ pub fn main() {
             "exhaustive": exhaustive,
             "samples": samples,
             "per_config": per_cfg,
+            "change_set_part": cs_part,
             "counters": {"operations": counters[0], "events_checked": counters[1], "injected_panics": counters[2]},
         }),
         assumptions: vec![
@@ -1699,6 +1834,19 @@ fn replay(cli: &Cli, path: &std::path::Path) -> ! {
     crate::util::crash_guard_tagged(&cli.root, &format!("{:?}", prop), "replay-crash");
     let kinds = all_kinds();
     let kname = v["kind"].as_str().unwrap_or("");
+    if kname == "changeset" {
+        match changeset_faults(5).2 {
+            Some((what, o)) => {
+                println!("# {}: {}", what, o);
+                println!("VIOLATION property=C19 replay={}", path.display());
+                std::process::exit(1)
+            }
+            None => {
+                println!("replay: property held");
+                std::process::exit(0)
+            }
+        }
+    }
     let k = kinds.iter().find(|k| k.name == kname).unwrap_or_else(|| machinery_error("replay: unknown kind"));
     let layout: Vec<u32> = serde_json::from_value(v["layout"].clone()).unwrap_or_else(|_| machinery_error("replay: bad layout"));
     let ops: Vec<Op> = serde_json::from_value(v["ops"].clone()).unwrap_or_else(|e| machinery_error(&format!("bad ops: {e}")));
